@@ -35,6 +35,9 @@ def pwl_items(tier):
       items.append(dict(kind="learned", kp=kp, units=units))
     # logits so far apart that softmax underflows and a piece gets length exactly 0.0
     items.append(dict(kind="learned", kp=kp, units=1, letters=(-70.0, 0.0, 70.0)))
+    # a frozen layer (trainable=False) whose logits are re-assigned between calls (weights restored
+    # into an inference-only model): every call must use the current logits
+    items.append(dict(kind="learned", kp=kp, units=2, frozen=True))
   return items
 
 
@@ -62,6 +65,25 @@ def _build_pwl(kp, units, cyclic, missing, split, learned=False):
   return layer
 
 
+def _form_msg(out, split, units, batch):
+  """split_outputs=True with units > 1: a list of `units` tensors (batch, 1); else one (batch, units)."""
+  if split and units > 1:
+    if not isinstance(out, (list, tuple)):
+      return "split_outputs=True returned a single tensor of shape %s instead of a list of %d" % (
+          tuple(out.shape), units)
+    shapes = [tuple(o.shape) for o in out]
+    if shapes != [(batch, 1)] * units:
+      return "split_outputs=True returned shapes %s, expected %d x (%d, 1)" % (shapes, units, batch)
+  elif isinstance(out, (list, tuple)):
+    return "a list of %d tensors returned although outputs are not split" % len(out)
+  elif tuple(out.shape) != (batch, units):
+    return "output shape %s, expected %s" % (tuple(out.shape), (batch, units))
+  return None
+
+
+_LAST_FORM = [None]
+
+
 def _call(layer, X, ismiss=None):
   tf, _ = bind.bind()
   x = tf.constant(np.asarray(X, dtype=np.float32))
@@ -69,6 +91,7 @@ def _call(layer, X, ismiss=None):
     out = layer([x, tf.constant(np.asarray(ismiss, dtype=np.float32))])
   else:
     out = layer(x)
+  _LAST_FORM[0] = _form_msg(out, getattr(layer, "split_outputs", False), int(layer.units), int(x.shape[0]))
   if isinstance(out, (list, tuple)):
     out = tf.concat(out, axis=1)
   return np.asarray(out, dtype=np.float64)
@@ -112,6 +135,9 @@ def pwl_case(item, ctx=None):
     ismiss[1::3] = 1.0
     miss_mask = (ismiss > 0) | (X == np.float32(kp[1]))
   out = _call(layer, X, ismiss)
+  form = _LAST_FORM[0]
+  if form:
+    return form
   # reference
   ref = np.zeros((X.shape[0], units))
   for u in range(units):
@@ -129,6 +155,8 @@ def pwl_case(item, ctx=None):
     ctx.tab("pwl_cases", "%s/%s%s" % (layout, missing, "/cyclic" if cyclic else ""), ref.size)
     ctx.tab("pwl_points", "missing_rows", int(miss_mask.sum()))
   msgs = []
+  if form:
+    return form
   if out.shape != ref.shape:
     return "output shape %s, expected %s" % (out.shape, ref.shape)
   if not (err.max() <= TOL):
@@ -164,6 +192,8 @@ def learned_case(item, ctx=None):
   letters = item.get("letters", (-3.0, 0.0, 3.0))
   words = alpha.words(letters, nseg).T  # (W, nseg)
   layer = _build_pwl(kp, units, False, "none", False, learned=True)
+  if item.get("frozen"):
+    layer.trainable = False
   n = len(kp)
   K = np.stack([np.arange(n, dtype=np.float64) * (u + 1) - 1 for u in range(units)], axis=1)
   layer.kernel.assign(K.astype(np.float32))
@@ -246,6 +276,10 @@ def cat_case(item, ctx=None):
     layer.kernel.assign(K.astype(np.float32))
     x = tf.constant(X.astype(item["dtype"]))
     out = layer(x)
+    form = _form_msg(out, item["split"], units, X.shape[0])
+    if form:
+      msgs.append(form)
+      break
     if isinstance(out, (list, tuple)):
       out = tf.concat(out, axis=1)
     out = np.asarray(out, dtype=np.float64)
